@@ -24,6 +24,7 @@ type TEnv struct {
 	quant  int
 	nowOld Term // allocation clock of the pre-state (for fresh())
 	resolve func(name string) (TV, bool)
+	loopEntry *TEnv // environment at loop entry, for entry(...)
 }
 
 func (te *TEnv) clone() *TEnv {
@@ -382,6 +383,7 @@ func (te *TEnv) quantifier(x EQuant) TV {
 	n := te.clone()
 	n.quant++
 	var decls []string
+	var syms []string
 	for _, qv := range x.Vars {
 		ty := qv.Type
 		if ty == "" {
@@ -391,6 +393,7 @@ func (te *TEnv) quantifier(x EQuant) TV {
 		v.eng.qn++
 		sym := fmt.Sprintf("%s!q%d", qv.Name, v.eng.qn)
 		decls = append(decls, fmt.Sprintf("(%s %s)", Sym(sym), s))
+		syms = append(syms, Sym(sym))
 		n.bound[qv.Name] = TV{Term{Sym(sym), s}, gt}
 	}
 	body := n.bool(x.Body)
@@ -407,7 +410,58 @@ func (te *TEnv) quantifier(x EQuant) TV {
 		pat = " :pattern (" + strings.Join(ps, " ") + ")"
 		return TV{T(SBool, "(%s (%s) (! %s%s))", q, strings.Join(decls, " "), body.S, pat), nil}
 	}
+	// default triggers: element addresses at(b,o,v) mentioning the bound variable; these do
+	// not depend on the heap version, so instantiation works across stores and havocs
+	if pats := atPatterns(body.S, syms); len(pats) > 0 {
+		return TV{T(SBool, "(%s (%s) (! %s :pattern (%s)))", q, strings.Join(decls, " "), body.S, strings.Join(pats, " ")), nil}
+	}
 	return TV{T(SBool, "(%s (%s) %s)", q, strings.Join(decls, " "), body.S), nil}
+}
+
+// atPatterns finds, for every bound symbol, a term (at X Y sym) in body whose X and Y
+// mention no bound symbol. Returns nil unless every symbol is covered.
+func atPatterns(body string, syms []string) []string {
+	var pats []string
+	seen := map[string]bool{}
+	for _, sym := range syms {
+		found := ""
+		idx := 0
+		for {
+			i := strings.Index(body[idx:], "(at ")
+			if i < 0 {
+				break
+			}
+			start := idx + i
+			end := matchParen(body, start)
+			if end < 0 {
+				break
+			}
+			term := body[start : end+1]
+			idx = start + 4
+			if !strings.HasSuffix(term, " "+sym+")") {
+				continue
+			}
+			head := term[:len(term)-len(sym)-2]
+			clean := true
+			for _, s2 := range syms {
+				if strings.Contains(head, s2) {
+					clean = false
+				}
+			}
+			if clean {
+				found = term
+				break
+			}
+		}
+		if found == "" {
+			return nil
+		}
+		if !seen[found] {
+			seen[found] = true
+			pats = append(pats, found)
+		}
+	}
+	return pats
 }
 
 func (te *TEnv) call(x ECall) TV {
@@ -419,6 +473,15 @@ func (te *TEnv) call(x ECall) TV {
 		return x.Args[i]
 	}
 	switch x.F {
+	case "entry":
+		// entry(e): the value of e when the loop was entered
+		if te.loopEntry == nil {
+			return te.tr(arg(0))
+		}
+		o := *te.loopEntry
+		o.bound = te.bound
+		o.quant = te.quant
+		return o.tr(arg(0))
 	case "len":
 		a := te.tr(arg(0))
 		switch s := a.V.(type) {
@@ -570,9 +633,14 @@ func (te *TEnv) call(x ECall) TV {
 		}
 		return TV{v.subRef(a.V.(Term), deref(a.T), path[0]), types.NewPointer(ft)}
 	}
-	// spec function
+	// spec function (optionally package-qualified)
 	if sf, ok := v.eng.db.Specs[x.F]; ok {
 		return te.specCall(sf, x)
+	}
+	if i := strings.LastIndex(x.F, "."); i >= 0 {
+		if sf, ok := v.eng.db.Specs[x.F[i+1:]]; ok {
+			return te.specCall(sf, x)
+		}
 	}
 	sfail("unknown function %s in specification", x.F)
 	return TV{}
